@@ -3,6 +3,7 @@ package level
 import (
 	"fmt"
 	"io"
+	"math/bits"
 	"strconv"
 
 	"github.com/Tnze/go-mc/level/biome"
@@ -35,36 +36,7 @@ func NewStatesPaletteContainer(length int, defaultValue BlocksState) *PaletteCon
 }
 
 func NewStatesPaletteContainerWithData(length int, data []uint64, pat []BlocksState) *PaletteContainer[BlocksState] {
-	var p palette[BlocksState]
-	n := calcBitsPerValue(length, len(data))
-	switch n {
-	case 0:
-		p = &singleValuePalette[BlocksState]{pat[0]}
-	case 1, 2, 3, 4:
-		n = 4
-		p = &linearPalette[BlocksState]{
-			values: pat,
-			bits:   n,
-		}
-	case 5, 6, 7, 8:
-		ids := make(map[BlocksState]int)
-		for i, v := range pat {
-			ids[v] = i
-		}
-		p = &hashPalette[BlocksState]{
-			ids:    ids,
-			values: pat,
-			bits:   n,
-		}
-	default:
-		p = &globalPalette[BlocksState]{}
-	}
-	return &PaletteContainer[BlocksState]{
-		bits:    n,
-		config:  statesCfg{},
-		palette: p,
-		data:    NewBitStorage(n, length, data),
-	}
+	return newPaletteContainerWithData[BlocksState](statesCfg{}, 4, block.BitsPerBlock, length, data, pat)
 }
 
 func NewBiomesPaletteContainer(length int, defaultValue BiomesState) *PaletteContainer[BiomesState] {
@@ -77,25 +49,46 @@ func NewBiomesPaletteContainer(length int, defaultValue BiomesState) *PaletteCon
 }
 
 func NewBiomesPaletteContainerWithData(length int, data []uint64, pat []BiomesState) *PaletteContainer[BiomesState] {
-	var p palette[BiomesState]
-	n := calcBitsPerValue(length, len(data))
-	switch n {
+	return newPaletteContainerWithData[BiomesState](biomesCfg{}, 0, biome.BitsPerBiome, length, data, pat)
+}
+
+// newPaletteContainerWithData builds a container from a palette and the packed palette indices of
+// the save format. There the width of an index follows from the size of the palette: it is
+// ceil(log2(len(pat))) bits, but not less than minBits, and a palette with a single entry has no
+// data at all. (The number of longs does not determine the width: 64 values of 3 bits and 64 values
+// of 4 bits both occupy 4 longs.) Without a palette the data holds the ids themselves, directBits
+// each. The save format keeps indirect palettes of any size, so the container is filled through
+// Set, which selects the representation used here.
+func newPaletteContainerWithData[T State](cfg paletteCfg[T], minBits, directBits, length int, data []uint64, pat []T) *PaletteContainer[T] {
+	var n int
+	switch len(pat) {
 	case 0:
-		p = &singleValuePalette[BiomesState]{pat[0]}
-	case 1, 2, 3:
-		p = &linearPalette[BiomesState]{
-			values: pat,
-			bits:   n,
+		n = directBits
+	case 1:
+		return &PaletteContainer[T]{
+			bits:    0,
+			config:  cfg,
+			palette: &singleValuePalette[T]{v: pat[0]},
+			data:    NewBitStorage(0, length, nil),
 		}
 	default:
-		p = &globalPalette[BiomesState]{}
+		n = max(minBits, bits.Len(uint(len(pat)-1)))
 	}
-	return &PaletteContainer[BiomesState]{
+	indices := NewBitStorage(n, length, data)
+	p := &PaletteContainer[T]{
 		bits:    n,
-		config:  biomesCfg{},
-		palette: p,
-		data:    NewBitStorage(n, length, data),
+		config:  cfg,
+		palette: cfg.create(n),
+		data:    NewBitStorage(cfg.bits(n), length, nil),
 	}
+	for i := 0; i < length; i++ {
+		v := T(indices.Get(i))
+		if len(pat) > 0 {
+			v = pat[v]
+		}
+		p.Set(i, v)
+	}
+	return p
 }
 
 func (p *PaletteContainer[T]) Get(i int) T {
